@@ -481,7 +481,7 @@ pub fn check(h: &PageHistory, rec: &mut CaseRec) -> Verdict {
     }
 }
 
-const SUBMITS: &[&str] = &["RUN", "CONT", "LIST", "NEW", "TRACE", "NOTRACE", "💥", "PRINT 1", "10 PRINT \"x\" : GOTO 10", "20 INPUT Q : PRINT Q : GOTO 20", "GOTO 10", "GOTO 20", "X = ", "PRINT 1/0", "1", "abc", "", "30 STOP", "GOTO 30", "INPUT K$", "\"", "PRINT \"é\"", "10", "99999999999999999999 PRINT 1", "20 C% = 1"];
+const SUBMITS: &[&str] = &["RUN", "CONT", "LIST", "NEW", "TRACE", "NOTRACE", "💥", "PRINT 1", "10 PRINT \"x\" : GOTO 10", "20 INPUT Q : PRINT Q : GOTO 20", "GOTO 10", "GOTO 20", "X = ", "PRINT 1/0", "1", "abc", "", "30 STOP", "GOTO 30", "INPUT K$", "\"", "PRINT \"é\"", "10", "99999999999999999999 PRINT 1", "20 C% = 1", "A = 0 : PRINT 1/A", "FOR I = 2 TO 0 STEP -1 : PRINT 6/I : NEXT I", "PRINT 1 : X$ = 5", "C = 1 : GOTO 99", "PRINT 2 : PRINT (", "INPUT Q : PRINT 1/0"];
 
 fn event() -> impl Strategy<Value = PageEvent> {
     let cfg = GenCfg::C03.with_input();
